@@ -22,6 +22,13 @@ fn dispatch(req: &J) -> J {
         "history" => multi::history(req),
         "threads" => multi::threads(req),
         "lex" => lex::run(req),
+        "parse" => match render::build_parser(req) {
+            Err(e) => json!({"build_err": e}),
+            Ok(p) => match p.parse(req["tpl"].as_str().unwrap()) {
+                Ok(_) => json!({"parsed": true}),
+                Err(e) => json!({"parse_err": e.to_string()}),
+            },
+        },
         "dateparse" => {
             // DateTime::from_str on a text: the components, or null
             match liquid_core::model::DateTime::from_str(req["text"].as_str().unwrap()) {
